@@ -71,6 +71,8 @@ def generate(rng, tier):
     out += sc.gen_remove_live(rng, 60 * n)
     # remove() of doers one of which raises in its own cease/exit context
     out += sc.gen_remove_hookraise(rng, 60 * n)
+    # extend()/remove() called from a doer's enter context while the scheduler is still entering its doers
+    out += sc.gen_enter_effects(rng, 60 * n)
     return out
 
 
@@ -116,6 +118,23 @@ def check_calls(case, obs):
                 if still:
                     errs.append(("members", f"remove({rec['ids']}) on {t} raised out of a removed doer's exit context and left "
                                             f"the force-closed doers {still} listed: {ar}"))
+                # ... and every removed doer that was alive is force-closed before the exception leaves remove():
+                # one doer's failing exit context does not stop the others from being closed
+                win = tr[rec["start"]:(rec["start"] + upto) if upto is not None else len(tr)]
+                running = _running_chain(case, rec["caller"])
+                for x in _dedupe([x for x in rec["ids"] if x in before]):
+                    if x in running:
+                        continue
+                    opened = 0
+                    for k, i, _ in tr[:rec["start"]]:
+                        if i == x and k == "Enter":
+                            opened += 1
+                        elif i == x and k == "Exit":
+                            opened -= 1
+                    ks = [k for k, i, _ in win if i == x and k in ("Cease", "Exit")]
+                    if opened > 0 and ks != ["Cease", "Exit"]:
+                        errs.append(("close", f"remove({rec['ids']}) on {t} raised out of a removed doer's exit context; removed doer {x} "
+                                              f"got {ks} before the exception left remove(), expected Cease, Exit"))
                 if ar is not None:
                     members[t] = ar
             continue
@@ -149,7 +168,8 @@ def check_calls(case, obs):
                     if i == x and k == "Enter":
                         break
                     if i == x and k == "Recur":
-                        if sc.fl(h) <= sc.fl(tyme0):
+                        # (a doer added during the scheduler's enter phase runs in the first cycle like the others)
+                        if sc.fl(h) <= sc.fl(tyme0) and rec.get("phase") != "enter":
                             errs.append(("same-cycle", f"doer {x} added to {t} by {rec['caller']} at tyme {sc.fl(tyme0)} recurred in the same cycle"))
                         break
             members[t] = before + new
@@ -201,6 +221,16 @@ def check_calls(case, obs):
                         errs.append(("zombie", f"removed doer {x} recurred after remove returned"))
                         break
             members[t] = exp_after
+    # a doer is started only when it is added (or a run starts): never a second generator beside a live one
+    open_ = {}
+    for k, i, h in tr:
+        if k == "Enter":
+            if open_.get(i, 0) > 0:
+                errs.append(("enter", f"doer {i} was entered again at tyme {sc.fl(h)} while its previous lifecycle was still running"))
+                break
+            open_[i] = open_.get(i, 0) + 1
+        elif k == "Exit":
+            open_[i] = open_.get(i, 0) - 1
     for sid, lst, _ in obs["scheds"]:
         if sid in members and lst != members[sid]:
             errs.append(("members", f"final doers of {sid} = {lst}, added-and-not-removed = {members[sid]}"))
